@@ -6,6 +6,10 @@ ids = [p['id'] for p in props]
 
 # id -> (level, technique, text, note)
 CLAIMED = {
+ "C01": ("exploration", "differential monitor against a reference engine (bundled SQLite via rusqlite) with AST-level shrinking",
+         "Generated schemas/data are loaded into vibesql and SQLite; generated queries over the shared subset are compared as multisets (sequences when ORDER BY names every output column), INTERSECT/EXCEPT ALL against multiset algebra over the reference's operand results. Failing cases are shrunk and signed by discrepancy kind + feature tags.",
+         "SQLite is trusted; only the calibrated subset is compared (no division, LIKE, string-number comparison, large integers)."),
+
  "C20": ("fault_enumeration", "fault enumeration over every byte offset of valid files; monitors: catch_unwind, counting global allocator, process-level abort/CPU-budget attribution",
          "Every offset of 8 valid files (2 databases x binary/compressed/JSON/SQL dump) is damaged by truncation, byte overwrite, bit flips, length-field overwrites and byte insertion/deletion and loaded through the format loader and the sniffing loader; random and spliced byte strings are added. The truncation section is exhaustive for those files.",
          "Files are a few hundred bytes to a few KiB; allocation monitor sees the largest single request only; hang = 20 s CPU per offset."),
